@@ -21,6 +21,7 @@ import sys
 sys.path.insert(0, os.path.dirname(os.path.dirname(os.path.abspath(__file__))))
 from sa.loader import Repo, PKG_DIR, AnalysisError  # noqa: E402
 from sa.check import run_property  # noqa: E402
+from sa.report import split_known, stable_key  # noqa: E402
 
 PROPS = ["C%02d" % i for i in range(1, 20)]
 
@@ -183,8 +184,9 @@ def verdicts(repo):
         try:
             ck = run_property(p, repo, "quick", "explicit")
             ck.check_expected()
-            out[p] = sorted({(o.rule, o.key.split("::")[0]) for o in ck.obs if o.verdict == "violation"})
-            DETAIL[p] = {(o.rule, o.key.split("::")[0]): "%s :: %s" % (o.key, o.msg) for o in ck.obs if o.verdict == "violation"}
+            _known, new = split_known(ck)
+            out[p] = sorted({(o.rule, stable_key(o.key)) for o in new})
+            DETAIL[p] = {(o.rule, stable_key(o.key)): "%s :: %s" % (o.key, o.msg) for o in new}
         except AnalysisError as e:
             out[p] = "ANALYSIS-ERROR: %s" % e
         except Exception as e:  # noqa
@@ -192,56 +194,71 @@ def verdicts(repo):
     return out
 
 
+def transform(mode, tree):
+    if mode == "rename":
+        tree = rename_locals(tree)
+    elif mode == "hoist":
+        tree = Hoister().visit(tree)
+    elif mode == "hoist-ret":
+        tree = Hoister(do_if=False).visit(tree)
+    elif mode == "hoist-if":
+        tree = Hoister(do_ret=False).visit(tree)
+    elif mode == "pass":
+        tree = PassInserter().visit(tree)
+    elif mode == "methods":
+        tree = reverse_methods(tree)
+    elif mode == "negate":
+        tree = Negator().visit(tree)
+    elif mode in EXTRA:
+        tree = EXTRA[mode](tree)
+    elif mode != "reflow":
+        raise SystemExit("unknown mode " + mode)
+    ast.fix_missing_locations(tree)
+    return tree
+
+
+EXTRA = {}
+
+
+def one_module(args):
+    mode, name, relpath, source, base = args
+    lines = []
+    tree = ast.parse(source, type_comments=True)
+    tree = transform(mode, tree)
+    src = ast.unparse(tree)
+    try:
+        compile(src, relpath, "exec")
+    except SyntaxError as e:
+        return (name, 0, ["%-22s rewrite does not compile: %s" % (name, e)])
+    repo = Repo(overlay={relpath: src})
+    v = verdicts(repo)
+    diffs = {p: v[p] for p in PROPS if v[p] != base[p]}
+    if not diffs:
+        return (name, 0, ["%-22s ok" % name])
+    lines.append("%-22s verdict changed:" % name)
+    for p, d in diffs.items():
+        lines.append("     %s: %s" % (p, d if isinstance(d, str) else [x for x in d if x not in (base[p] if isinstance(base[p], list) else [])][:4]))
+        if not isinstance(d, str):
+            for x in d:
+                if x not in (base[p] if isinstance(base[p], list) else []):
+                    lines.append("         %s" % DETAIL.get(p, {}).get(x, "")[:400])
+    return (name, 1, lines)
+
+
 def main():
+    from multiprocessing import Pool
     mode = sys.argv[1] if len(sys.argv) > 1 else "rename"
-    only = sys.argv[2:]
+    only = [a for a in sys.argv[2:] if not a.startswith("-")]
     base_repo = Repo()
     base = verdicts(base_repo)
+    jobs = [(mode, name, m.relpath, m.source, base) for name, m in sorted(base_repo.modules.items()) if not only or name in only]
+    with Pool(int(os.environ.get("SWEEP_JOBS", "8"))) as pool:
+        res = pool.map(one_module, jobs, chunksize=1)
     bad = 0
-    for name, m in sorted(base_repo.modules.items()):
-        if only and name not in only:
-            continue
-        tree = ast.parse(m.source, type_comments=True)
-        if mode == "rename":
-            tree = rename_locals(tree)
-        elif mode == "hoist":
-            tree = Hoister().visit(tree)
-            ast.fix_missing_locations(tree)
-        elif mode == "hoist-ret":
-            tree = Hoister(do_if=False).visit(tree)
-            ast.fix_missing_locations(tree)
-        elif mode == "hoist-if":
-            tree = Hoister(do_ret=False).visit(tree)
-            ast.fix_missing_locations(tree)
-        elif mode == "pass":
-            tree = PassInserter().visit(tree)
-            ast.fix_missing_locations(tree)
-        elif mode == "methods":
-            tree = reverse_methods(tree)
-        elif mode == "negate":
-            tree = Negator().visit(tree)
-            ast.fix_missing_locations(tree)
-        src = ast.unparse(tree)
-        try:
-            compile(src, m.relpath, "exec")
-        except SyntaxError as e:
-            print("%-22s rewrite does not compile: %s" % (name, e))
-            continue
-        repo = Repo(overlay={m.relpath: src})
-        v = verdicts(repo)
-        diffs = {p: v[p] for p in PROPS if v[p] != base[p]}
-        if diffs:
-            bad += 1
-            print("%-22s verdict changed:" % name)
-            for p, d in diffs.items():
-                print("     %s: %s" % (p, d if isinstance(d, str) else [x for x in d if x not in (base[p] if isinstance(base[p], list) else [])][:4]))
-                if not isinstance(d, str) and os.environ.get("SWEEP_DETAIL"):
-                    for x in d:
-                        if x not in (base[p] if isinstance(base[p], list) else []):
-                            print("         %s" % DETAIL.get(p, {}).get(x, "")[:400])
-        else:
-            print("%-22s ok" % name)
-    print("modules with changed verdicts: %d" % bad)
+    for name, b, lines in res:
+        bad += b
+        print("\n".join(lines))
+    print("mode %s: modules with changed verdicts: %d of %d" % (mode, bad, len(jobs)))
     return 1 if bad else 0
 
 
